@@ -32,6 +32,18 @@ def evaluate_indexerror_before_validation(case, observed):
     return isinstance(observed, str) and observed.startswith("raised IndexError")
 
 
+def evaluate_drops_malformed_outside_span(case, observed):
+    """segment.evaluate / chord.evaluate adjust the estimate to the reference span before validating, so an
+    estimated interval of non-positive duration lying strictly outside that span is removed and scores are returned."""
+    if case.get("kind") != "fault":
+        return False
+    if case.get("entry") not in ("segment.evaluate[beyond-span]", "chord.evaluate[beyond-span]"):
+        return False
+    if not str(case.get("fault", "")).startswith(("beyond-span:", "before-span:")) or case.get("arg") != 2:
+        return False
+    return isinstance(observed, str) and observed.startswith("returned OrderedDict")
+
+
 def multipitch_negative_frequency(case, observed):
     """util.validate_frequencies(allow_negatives=False) never rejects a negative frequency."""
     return (case.get("kind") == "fault" and case.get("entry") in ("multipitch.metrics", "multipitch.evaluate")
